@@ -245,12 +245,12 @@ fn run_relay(dir: &Path, c: &RelayCase) -> Result<(), (String, String)> {
         Err(StartError::Harness(e)) => return Err(("harness".into(), e)),
     };
     // relay: client <-> front, back <-> server
-    let front = UdpSocket::bind("127.0.0.1:0").map_err(|e| ("harness".to_string(), e.to_string()))?;
-    let back = UdpSocket::bind("127.0.0.1:0").map_err(|e| ("harness".to_string(), e.to_string()))?;
+    let front = UdpSocket::bind(format!("{}:0", wire::local_ip())).map_err(|e| ("harness".to_string(), e.to_string()))?;
+    let back = UdpSocket::bind(format!("{}:0", wire::local_ip())).map_err(|e| ("harness".to_string(), e.to_string()))?;
     let front_port = front.local_addr().unwrap().port();
     front.set_read_timeout(Some(Duration::from_millis(5))).unwrap();
     back.set_read_timeout(Some(Duration::from_millis(5))).unwrap();
-    let mut cargs = vec![wire::s("f.bin"), wire::s("-i"), wire::s("127.0.0.1"), wire::s("-p"), front_port.to_string(), wire::s("-b"), c.blk.to_string(), wire::s("-w"), c.ws.to_string(), wire::s("-t"), wire::s("1")];
+    let mut cargs = vec![wire::s("f.bin"), wire::s("-i"), wire::local_ip(), wire::s("-p"), front_port.to_string(), wire::s("-b"), c.blk.to_string(), wire::s("-w"), c.ws.to_string(), wire::s("-t"), wire::s("1")];
     if c.upload {
         cargs.push(wire::s("-u"));
     } else {
@@ -357,7 +357,9 @@ fn run_relay(dir: &Path, c: &RelayCase) -> Result<(), (String, String)> {
     if let Some(g) = &got {
         // an upload that failed may still have its partial file on the server (the server's worker has not given up yet):
         // a proper prefix that nobody declared complete is "no completed copy", not a corrupted one
-        let declared_complete = if c.upload { sout.contains("Received f.bin") } else { cerr.trim().is_empty() };
+        // (the client reports every failure on stderr; log wording of the server is not relied upon)
+        let declared_complete = cerr.trim().is_empty();
+        let _ = &sout;
         let proper_prefix = g.len() < data.len() && g[..] == data[..g.len()];
         if g != &data && !(proper_prefix && !declared_complete) {
             return Err(("corrupted-copy".into(), format!("{} through a relay (drops to client {:?} / to server {:?}, dups {:?}/{:?}, swaps {:?}/{:?}): the receiving side holds {} bytes that differ from the {} bytes sent; tftpc stderr {:?}", if c.upload { "upload" } else { "download" }, c.drop_to_client, c.drop_to_server, c.dup_to_client, c.dup_to_server, c.swap_to_client, c.swap_to_server, g.len(), data.len(), cerr.trim())));
